@@ -528,7 +528,10 @@ pub fn evaluate_damage(prop: &str, case: &Case, fault: &Fault) -> Vec<Failure> {
 /// C16 on a log returned by `open` (after restart, crash recovery or damage): the accounting must
 /// describe the *recovered* state, whatever that state is.
 pub fn c16_on_recovered(w: &mut crate::world::World, obs: &Obs) -> Option<String> {
-    let ru = w.resource_usage();
+    let ru = match w.try_resource_usage() {
+        Ok(ru) => ru,
+        Err(msg) => return Some(format!("resource_usage() of the recovered log panicked: {msg}")),
+    };
     let n: usize = obs.queues.keys().map(|k| k.len()).sum();
     let b: usize = obs.queues.values().flat_map(|q| q.recs.iter()).map(|r| r.len as usize).sum();
     let r: usize = obs.queues.values().map(|q| q.recs.len()).sum();
